@@ -256,15 +256,35 @@ func (s *Solver) Solve(o *Oblig) *SolveResult {
 				ch <- ans{sp.name, st, raw, d}
 			}()
 		}
+		// thorough tier: every back end that answers within a grace period after the first
+		// definite answer (five times the time that answer took, at least 10 s, at most 60 s)
+		// must agree with it; back ends that need longer are recorded as undecided
+		var grace <-chan time.Time
+	collect:
 		for i := 0; i < len(solvers); i++ {
-			a := <-ch
-			res.AllRaw[a.name] = a.raw
-			if a.st == "unsat" || a.st == "sat" {
-				definite = append(definite, a)
-				if !s.thorough {
-					cancel()
-					break
+			select {
+			case a := <-ch:
+				res.AllRaw[a.name] = a.raw
+				if a.st == "unsat" || a.st == "sat" {
+					definite = append(definite, a)
+					if !s.thorough {
+						cancel()
+						break collect
+					}
+					if grace == nil {
+						g := 5 * time.Since(start)
+						if g < 10*time.Second {
+							g = 10 * time.Second
+						}
+						if g > 60*time.Second {
+							g = 60 * time.Second
+						}
+						grace = time.After(g)
+					}
 				}
+			case <-grace:
+				cancel()
+				break collect
 			}
 		}
 		if len(definite) > 0 {
